@@ -1,8 +1,13 @@
-// Package c19: stub (property not built yet).
 package c19
 
-import "verifharness/hk"
+import (
+	"verifharness/hk"
+)
 
-func NewExec() func(w []string) string { return func([]string) string { return "bad-op" } }
+// NewExec returns a fresh interpreter of the C19 line protocol on the real code.
+func NewExec() func(words []string) string {
+	e := newExecState()
+	return func(ws []string) string { return hk.Guard(func() string { return e.Step(ws) }) }
+}
 
-func Run(r *hk.Run) { r.Note("not built yet") }
+func Run(r *hk.Run) { r.Note("wip") }
